@@ -172,7 +172,10 @@ pub fn mk_rule<N: Analysis<Ar> + 'static>(r: &RuleSpec) -> Rewrite<Ar, N> {
         None => Rewrite::new(r.name, r.lhs, r.rhs),
         // slot_free_in(s, v) is true iff the binding of ?v does NOT mention slot s
         Some((s, v)) => match r.not_free2 {
-            None => Rewrite::new_if(r.name, r.lhs, r.rhs, slot_free_in(s, v)),
+            // the single-condition rules go through the library's `rw!` macro: half of them in its positive form, half in
+            // its negated form (`if !cond` with the doubly negated condition)
+            None if r.name.len() % 2 == 0 => rw!(r.name; r.lhs => r.rhs, if slot_free_in(s, v)),
+            None => rw!(r.name; r.lhs => r.rhs, if !not(slot_free_in(s, v))),
             // the plain `and` combinator
             Some((s2, v2)) if r.name == "let-unused-both" => Rewrite::new_if(r.name, r.lhs, r.rhs, and(slot_free_in(s, v), slot_free_in(s2, v2))),
             // exercises the `and` and `not` combinators: a && b  ==  not(or(not a, not b))
